@@ -564,6 +564,11 @@ class Exec(object):
         if n.get("isArrow"):
             for s, p in self.ev(base, st):
                 df = getattr(self.ctx, "deref_fields", None)
+                dc = getattr(self.ctx, "deref_calls", None)
+                if dc and p.op == "app" and isinstance(p.args[0], str) and p.args[0].startswith("call:") and p.args[0][5:] in dc:
+                    e_ = Event("deref", p, [tm.strc(p.args[0][5:] + "()"), tm.strc(name)], tm.num(0, "I"), node=n)
+                    e_.snap = list(s.pc)
+                    s.events.append(e_)
                 if df and p.op == "select" and p.args[0].op in ("sym", "store"):
                     b_ = p.args[0]
                     while b_.op == "store":
